@@ -9,7 +9,8 @@ impl<$TP> Handle<$G, Message<$O, Tok_sink_talkback>> for SinkH {
         else if k == $GATE_GREET_FIRST { !(m is Handshake) ==> g.dn.phase != Dn::NotGreeted }
         else if k == $GATE_AFTER_TERM { !(m is Handshake) ==> g.dn.phase != Dn::EndedByUs }
         else if k == $GATE_AFTER_DISPOSAL { !(m is Handshake) ==> g.dn.phase != Dn::EndedBySink }
-        else if k == $GATE_NO_ORPHAN { m is Terminate || m is Error ==> g.up.phase != Up::Live }
+        else if k == $GATE_NO_ORPHAN { m is Terminate || m is Error ==> $ORPHAN }
+        else if k == $GATE_QUIET { $QUIET }
         else if k == $GATE_UNREQUESTED { m is Data && c.pullable ==> g.dn.data.len() < g.dn.pulls }
         else { true }
     }
